@@ -5,16 +5,25 @@ from .. import common as C
 
 MANIFEST = dict(
     text="Lean 4 theorems over an executable model of http_range_parse_next/parse/coalesce_unsorted, "
-         "http_range_single/multi over chunk lists, the preconditions of http_range_rfc7233, "
+         "http_range_single/multi over chunk *byte lists*, the preconditions of http_range_rfc7233, "
          "http_etag_matches, http_response_handle_cachable and the three HTTP-date parsers + IMF-fixdate "
-         "formatter (every part carries the declared bytes, satisfiable ranges are covered, 416 iff nothing "
-         "satisfiable, ignore cases, 304 iff validators match, date round trip through a proved civil-date "
-         "bijection); model tied to the C by differential runs over real chunk queues under ASan/UBSan",
+         "formatter.  Proved over the model: parser = RFC 9110 14.1.2 meaning of every grammatical range-spec with "
+         "digit strings of any magnitude (c15_spec_is_rfc); every part carries the declared bytes, multipart framing "
+         "and Content-Length (c15_parts_exact, any header/layout); satisfiable ranges covered for <=10 specs in any "
+         "order, <=128 ascending, and for an ascending prefix of any longer list; 416 only-if (any header) / iff "
+         "(grammatical); ignore cases; 304 iff (Last-Modified = rendered mtime) with the ETag-list comparison "
+         "(listed tags without ',' SP HTAB); IMF/asctime date round trip for years 1000..9999 through a proved "
+         "civil-date bijection (RFC 850: partial, current-century window).  Tested only (correspondence, not proof): "
+         "FILE_CHUNK bodies and the file.length/offset arithmetic of http_range_single, equality of the ','-split "
+         "model with the pointer walk, libc strtoll/gmtime_r/timegm/strftime, opaque tags containing ','.  Outside: "
+         "response.c gating (range_requests option, callers of rfc7233/handle_cachable, 416 error body), ETag/"
+         "Last-Modified generation, HTTP/2 and end-to-end observation",
     note="trusted: Lean kernel (+propext, Classical.choice, Quot.sound), hand-written model validated by the "
-         "h_range correspondence (grammar-generated Range headers x lengths x chunk layouts, validator "
-         "neighbourhoods, timestamp sweeps incl. libc gmtime/timegm), limits/boundary regenerated from "
-         "http_range.c each run; numbers of any magnitude are covered (strtoll clamp proved harmless, see "
-         "c15_overflow_numbers_clamped)",
+         "h_range correspondence (grammar-generated Range headers x lengths x mem/file chunk layouts, validator "
+         "neighbourhoods, timestamp sweeps incl. libc gmtime/timegm); RMAX, RMAX_UNSORTED, HTTP_DATE_SZ, LLONG_*, "
+         "boundary regenerated from the source each run and used by the proofs; partial: RFC 850 years of the next "
+         "century (c15_date_roundtrip_rfc850_partial), the 80-byte gap literal and file chunks by correspondence only, "
+         "response.c glue not covered",
     tech="Lean 4 proof over hand-written model + differential correspondence (in-process C harness)",
     ref="6/C15")
 
